@@ -1,4 +1,4 @@
--- GENERATED from /repo by /verif/extract (gvx) on every run: do not edit
+-- GENERATED from /work/g6-repo by /verif/extract (gvx) on every run: do not edit
 namespace GV.Gen.GoLite
 
 set_option linter.unusedVariables false
